@@ -400,6 +400,34 @@ func registerVerif(p *Program) {
 		}
 		return quiesceRetry{}
 	})
+	// verifRunOnly(sub): let only the goroutines whose stack mentions sub run until they block
+	// (builds a specific interleaving deterministically; natively a short sleep)
+	p.reg("verif:verifRunOnly", func(e *Exec, g *G, a []Value) Value {
+		sub := strArg(a[0])
+		if e.onlyDone[g] {
+			// resumed after the restricted run
+			delete(e.onlyDone, g)
+			return nil
+		}
+		any := false
+		for _, o := range e.gs {
+			if o != g && o.status == GRunnable && gMatches(o, sub) {
+				any = true
+			}
+		}
+		if !any {
+			e.onlyFilter = ""
+			return nil
+		}
+		e.onlyFilter = sub
+		e.onlyDone[g] = true
+		e.onlyCaller = g
+		g.status = GQuiesce
+		if e.cur == g {
+			e.cur = nil
+		}
+		return quiesceRetry{}
+	})
 	p.reg("verif:verifSched", func(e *Exec, g *G, a []Value) Value {
 		n := int(a[0].(*Term).SVal())
 		// n > 0: fork the schedule at blocking points and allow n preemptions at sync points;
@@ -575,9 +603,10 @@ func (e *Exec) noteRelease(g *G, c *Cell, ms *mutexState) {
 			break
 		}
 	}
-	g.vc.tick(g.id)
+	// release: publish the clock, then advance (later accesses are not covered by this release)
 	ms.vc = ms.vc.clone()
 	ms.vc.join(g.vc)
+	g.vc.tick(g.id)
 }
 
 func registerSync(p *Program) {
@@ -674,8 +703,8 @@ func registerSync(p *Program) {
 		w := wgOf(e, a[0])
 		d := a[1].(*Term)
 		w.n += int(int64(e.concretize(d, "WaitGroup.Add")))
-		g.vc.tick(g.id)
 		w.vc.join(g.vc)
+		g.vc.tick(g.id)
 		if w.n < 0 {
 			e.raise(g, IfaceV{T: e.prog.runtimeErrType, V: concStr("sync: negative WaitGroup counter")}, "sync: negative WaitGroup counter", true)
 			return panicked{}
@@ -688,8 +717,8 @@ func registerSync(p *Program) {
 	p.reg("(*sync.WaitGroup).Done", func(e *Exec, g *G, a []Value) Value {
 		w := wgOf(e, a[0])
 		w.n--
-		g.vc.tick(g.id)
 		w.vc.join(g.vc)
+		g.vc.tick(g.id)
 		if w.n < 0 {
 			e.raise(g, IfaceV{T: e.prog.runtimeErrType, V: concStr("sync: negative WaitGroup counter")}, "sync: negative WaitGroup counter", true)
 			return panicked{}
